@@ -432,6 +432,13 @@ class Inliner:
         if isinstance(st, (ast.FunctionDef, ast.AsyncFunctionDef, ast.ClassDef)):
             return [st]
         try:
+            # with self._wrapper(a, b): BODY   where _wrapper is a private @contextmanager generator with a single bare `yield`:
+            # the generator's text with BODY in place of the yield (an exception in BODY leaves through the same `with` blocks the
+            # yield sits in; without try/finally around the yield nothing after it runs, exactly as in the spliced text)
+            if isinstance(st, ast.With) and len(st.items) == 1 and st.items[0].optional_vars is None and isinstance(st.items[0].context_expr, ast.Call):
+                spliced = self._splice_context_manager(cx, st, stack, depth)
+                if spliced is not None:
+                    return spliced
             # whole-statement forms
             if isinstance(st, ast.Assign) and isinstance(st.value, ast.Call) and len(st.targets) == 1:
                 c = self._resolve_in(cx, st.value, stack)
@@ -500,6 +507,78 @@ class Inliner:
             return hoisted + [st]
         except _NoInline:
             return [st]
+
+    def _splice_context_manager(self, cx: "_Ctx", st: ast.With, stack: tuple[str, ...], depth: int) -> list[ast.stmt] | None:
+        import dataclasses
+
+        call = st.items[0].context_expr
+        if any(isinstance(a, ast.Starred) for a in call.args) or any(k.arg is None for k in call.keywords):
+            return None
+        t = self.prog.resolve_call(cx.scope, call)
+        if not (isinstance(t, list) and len(t) == 1):
+            return None
+        callee = t[0]
+        fi = cx.scope
+        if isinstance(callee.node, ast.Lambda) or callee.module is not fi.module or callee.qual in stack or not callee.name.startswith("_") \
+                or callee.name.startswith("__") or callee.qual in self.keep:
+            return None
+        if [d.split(".")[-1] for d in callee.decorators] != ["contextmanager"]:
+            return None
+        f = call.func
+        on_self = isinstance(f, ast.Attribute) and isinstance(f.value, ast.Name) and fi.cls is not None and fi.params and f.value.id == fi.params[0] and callee.cls is not None
+        plain = isinstance(f, ast.Name) and callee.cls is None and callee.parent is None
+        if not (on_self or plain):
+            return None
+        own = list(walk_no_nested(callee.node))
+        yields = [x for x in own if isinstance(x, (ast.Yield, ast.YieldFrom))]
+        if len(yields) != 1 or not isinstance(yields[0], ast.Yield) or yields[0].value is not None:
+            return None
+        if any(isinstance(x, (ast.Return, ast.Try, ast.For, ast.While, ast.AsyncFor)) for x in own):
+            return None
+        if any(isinstance(x, (ast.FunctionDef, ast.AsyncFunctionDef, ast.Lambda, ast.ClassDef)) for x in ast.walk(callee.node) if x is not callee.node):
+            return None
+        # the yield must be a statement of its own
+        fn2 = clone(callee.node)
+        fn2.decorator_list = []
+        marker = f"__cm_body_{self.counter + 1}__"
+        found = [0]
+
+        class _Mark(ast.NodeTransformer):
+            def visit_Expr(self, node):
+                if isinstance(node.value, ast.Yield):
+                    found[0] += 1
+                    return ast.copy_location(ast.Expr(value=ast.Name(id=marker, ctx=ast.Load())), node)
+                return node
+
+        _Mark().visit(fn2)
+        if found[0] != 1:
+            return None
+        fake = dataclasses.replace(callee, node=fn2)
+        try:
+            stmts = self._expand(fi, fake, call, None, stack, depth)
+        except _NoInline:
+            return None
+        # put the with-body where the marker is
+        placed = [0]
+
+        def place(lst: list[ast.stmt]) -> list[ast.stmt]:
+            out: list[ast.stmt] = []
+            for x in lst:
+                if isinstance(x, ast.Expr) and isinstance(x.value, ast.Name) and x.value.id == marker:
+                    placed[0] += 1
+                    out.extend(st.body)
+                    continue
+                for fld in ("body", "orelse", "finalbody"):
+                    sub = getattr(x, fld, None)
+                    if isinstance(sub, list) and sub and isinstance(sub[0], ast.stmt):
+                        setattr(x, fld, place(sub))
+                out.append(x)
+            return out
+
+        res = place(stmts)
+        if placed[0] != 1:
+            return None
+        return res
 
     def _hoist(self, cx: "_Ctx", e: ast.expr, stack: tuple[str, ...], depth: int) -> tuple[ast.expr, list[ast.stmt]]:
         pre: list[ast.stmt] = []
